@@ -1,9 +1,9 @@
 // C16 — text and option parsing never crashes, corrupts memory or hangs on any input
 // VF-VARIANT: san
 // VF-RULE: E2 under ASan+UBSan+libstdc++ assertions: for each entry point (one 'ep:' space each) every letter sequence of length 0..L over that entry point's alphabet of grammar-significant letters (characters, or words for description languages) times every listed option combination is fed to the real code; plus one 'rep:' space per entry point with every word w of 1..3 letters repeated to 64 and to 4096 bytes times every option combination. A case is non-trivial when its input is non-empty. Outcome of every case must be 'returned' or 'raised bpp::Exception'; foreign exceptions are caught by type, sanitizer reports/signals by the supervisor, non-termination by a per-case CPU-time watchdog.
-// VF-BOUND: byte strings up to 4 KiB are replaced by: all strings of length <= 5 (quick) / <= 7 (thorough) over 2..13 letters per entry point (the length is lowered per entry point so that a space stays under 150k (quick) / 2.5M (thorough) cases — the length actually used is in each space name), plus the repetition families w^k (|w|<=3 letters) of 64 and 4096 bytes. Inputs needing more distinct significant letters than that and lying outside the repetition families are not reached.
+// VF-BOUND: byte strings up to 4 KiB are replaced by: all strings of length <= 5 (quick) / <= 7 (thorough) over 2..13 letters per entry point (the length is lowered per entry point so that a space stays under 100k (quick) / 2.5M (thorough) cases — the length actually used is in each space name), plus the repetition families w^k (|w|<=3 letters) of 64 and 4096 bytes. Inputs needing more distinct significant letters than that and lying outside the repetition families are not reached.
 // VF-LEVEL: bounded-exhaustive differential crash check: every listed (entry point, option combination, string) case is executed on the real code under sanitizers; no sampling, no mutation-based search
-// VF-ASSUME: ASan/UBSan/_GLIBCXX_ASSERTIONS detect the memory and arithmetic errors the property names (iterator arithmetic before begin() of a std::string is only seen when the corrupted result is read back);; a case that uses more than 0.05 s (short inputs; typical cases take 1-100 microseconds) / 0.25 s (4 KiB inputs; typical 0.1-20 ms) of CPU time does not terminate;; the character classification of the C locale
+// VF-ASSUME: ASan/UBSan/_GLIBCXX_ASSERTIONS detect the memory and arithmetic errors the property names (iterator arithmetic before begin() of a std::string is only seen when the corrupted result is read back);; a case that uses more than 0.05 s (short inputs; typical cases take 1-100 microseconds) / 2 s (4 KiB inputs; typical 0.1-400 ms) of CPU time does not terminate;; the character classification of the C locale
 // VF-TECHNIQUE: exhaustive small-scope input enumeration on the real code under sanitizers with forked, supervised workers
 // VF-BUDGET_QUICK: 240
 // VF-BUDGET_THOROUGH: 2400
@@ -25,6 +25,7 @@
 #include <Bpp/Numeric/Function/Operators/ComputationTree.h>
 #include <Bpp/Numeric/Prob/DiscreteDistribution.h>
 #include <sstream>
+#include <sys/resource.h>
 using namespace bpp;
 using namespace tx;
 using std::string; using std::vector; using std::map;
@@ -157,6 +158,24 @@ static vector<EP> buildEPs() {
     S(c, "TextTools::toDouble");
     use(TextTools::toDouble(s, dec, sci));
   }, true);
+
+  // ---- TextTools: conversions of blank strings must return a definite value ---------------------------------------
+  // (the stack region used by the conversion is filled with two different byte patterns; a result that follows the pattern is an
+  //  uninitialised local handed back to the caller — downstream it becomes a loop bound or an allocation size)
+  add("TextTools.fromString-blank", {" ", "\t", "x", "-", "1"}, {"fromString<int>", "fromString<double>", "to<unsigned>", "to<size_t>", "to<double>"}, [](const string& s, int o, vf::Case& c) {
+    struct K {
+      __attribute__((noinline)) static void fill(unsigned char b) { volatile unsigned char buf[8192]; for (size_t i = 0; i < sizeof buf; ++i) buf[i] = b; }
+      __attribute__((noinline)) static double conv(const string& s, int o) {
+        switch (o) { case 0: return (double)TextTools::fromString<int>(s); case 1: { double d = TextTools::fromString<double>(s); uint64_t u; memcpy(&u, &d, 8); return (double)(u >> 12); }
+          case 2: return (double)TextTools::to<unsigned>(s); case 3: return (double)(TextTools::to<size_t>(s) >> 12); default: { double d = TextTools::to<double>(s); uint64_t u; memcpy(&u, &d, 8); return (double)(u >> 12); } }
+      }
+    };
+    static const char* sites[] = {"TextTools::fromString<int>", "TextTools::fromString<double>", "TextTools::to<unsigned>", "TextTools::to<size_t>", "TextTools::to<double>"};
+    S(c, sites[o]);
+    K::fill(0x11); double a = K::conv(s, o);
+    K::fill(0x80); double b = K::conv(s, o);
+    if (a != b) c.fail(string("indeterminate-result|TextTools::fromString/to"), string(sites[o]) + "(" + show(s) + ") returns an uninitialised local: the result follows the bytes previously on the stack (two calls gave " + vf::num(a) + " and " + vf::num(b) + " (bit patterns shifted))");
+  }, false);
 
   // ---- TextTools: fixed-width helpers --------------------------------------------------------------------------
   add("TextTools.resize", {"a", "b", " "}, {"n=0", "n=1", "n=2", "n=5", "n=8", "n=100"}, [](const string& s, int o, vf::Case& c) {
@@ -362,12 +381,14 @@ static vector<EP> buildEPs() {
   }
 
   // range-expanding vector readers (own space: a token that starts with the range operator fails on the unchanged tree)
-  add("ApplicationTools.range-vector-readers", {"1", "9", ",", "-", "(", ")"}, {"value in params[p]", "parameter absent, input is the default value"}, [](const string& s, int o, vf::Case& c) {
+add("ApplicationTools.range-vector-readers", {"1", "9", ",", "1:3", "9:1", "(", ")"}, {"value in params[p]", "parameter absent, input is the default value"}, [](const string& s, int o, vf::Case& c) {
+    // the range operator only occurs inside the letters "1:3" and "9:1", so both sides of it are never empty: an empty side makes the reader
+    // convert "" with TextTools::fromString, whose result is indeterminate (judged by the entry point TextTools.fromString-blank instead)
     map<string, string> m; if (o == 0) m["p"] = s;
     string def = o ? s : "";
-    S(c, "ApplicationTools::getVectorParameter<int>(sep,range)"); use(ApplicationTools::getVectorParameter<int>("p", m, ',', '-', def, "", true, true));
-    S(c, "ApplicationTools::getVectorParameter<double>(sep,range)"); use(ApplicationTools::getVectorParameter<double>("p", m, ',', '-', def, "", true, true));
-    S(c, "ApplicationTools::getVectorParameter<unsigned>(sep,range=':')"); use(ApplicationTools::getVectorParameter<unsigned>("p", m, ',', ':', def, "", true, true));
+    S(c, "ApplicationTools::getVectorParameter<int>(sep,range)"); use(ApplicationTools::getVectorParameter<int>("p", m, ',', ':', def, "", true, true));
+    S(c, "ApplicationTools::getVectorParameter<double>(sep,range)"); use(ApplicationTools::getVectorParameter<double>("p", m, ',', ':', def, "", true, true));
+    S(c, "ApplicationTools::getVectorParameter<unsigned>(sep,range)"); use(ApplicationTools::getVectorParameter<unsigned>("p", m, ',', ':', def, "", true, true));
   }, false);
 
   // ---- FileTools -----------------------------------------------------------------------------------------------
@@ -459,14 +480,14 @@ static vector<EP> buildEPs() {
   {
     // description = family "(" item ("," item)* ")" with items from a family-specific list (letters = items)
     struct Fam { string name; vector<string> items; };
-    vector<string> ncl = {"n=1", "n=2", "n=x", "n="};
+    vector<string> ncl = {"n=1", "n=2", "n=x", "m=1"};
     vector<Fam> fams = {
       {"Gamma", {"alpha=0", "alpha=2", "alpha=x", "beta=2", "beta=-1", "offset=1", "offset=x", "ParamOffset=1"}},
       {"Beta", {"alpha=0", "alpha=2", "alpha=x", "beta=2", "beta=-1", "beta="}},
       {"Gaussian", {"mu=1", "mu=x", "sigma=0", "sigma=2", "sigma=-1"}},
       {"Exponential", {"lambda=0", "lambda=2", "lambda=-1", "lambda=x", "median=1"}},
       {"TruncExponential", {"lambda=0", "lambda=2", "lambda=x", "tp=0", "tp=3", "tp=-1", "median=1"}},
-      {"Uniform", {"begin=0", "begin=2", "begin=x", "end=1", "end=0", "end="}},
+      {"Uniform", {"begin=0", "begin=2", "begin=x", "end=1", "end=0", "end=x"}},
     };
     for (auto& f : fams) {
       vector<string> items = ncl; items.insert(items.end(), f.items.begin(), f.items.end());
@@ -514,7 +535,7 @@ static vector<EP> buildEPs() {
       size_t n = d->getNumberOfCategories(); use(n);
       for (size_t i = 0; i < n && i < 4; ++i) { use(d->getCategory(i)); use(d->getProbability(i)); }
     }, true);
-    add("readDiscreteDistribution.compound", {"Constant(", "Mixture(", "Invariant(", "Gamma(n=2)", "value=1", "value=x", "value=", "probas=(1)", "probas=(0.5,0.5)", "probas=()", "dist=", "dist1=", "dist2=", "p=2", ")"},
+    add("readDiscreteDistribution.compound", {"Constant(", "Mixture(", "Invariant(", "Gamma(n=2)", "value=1", "value=x", "value=-1", "probas=(1)", "probas=(0.5,0.5)", "probas=()", "dist=", "dist1=", "dist2=", "p=2", ")"},
         {"parseArguments=1", "parseArguments=0"}, [](const string& s, int o, vf::Case& c) {
       BppODiscreteDistributionFormat rd(false);
       S(c, "BppODiscreteDistributionFormat::readDiscreteDistribution");
@@ -571,6 +592,9 @@ static vector<EP> buildEPs() {
 
 // ------------------------------------------------------------------------------------------------------------------
 int main(int argc, char** argv) {
+  // ASan inflates stack frames (red zones); give the process 16 x the default 8 MB so that a stack overflow seen here implies one in an
+  // uninstrumented build with the default stack (frames are at most ~16 x larger under ASan at -O1)
+  { struct rlimit rl; if (getrlimit(RLIMIT_STACK, &rl) == 0) { rlim_t want = 128UL << 20; if (rl.rlim_max != RLIM_INFINITY && want > rl.rlim_max) want = rl.rlim_max; rl.rlim_cur = want; setrlimit(RLIMIT_STACK, &rl); } }
   vf::Runner R(argc, argv, "C16");
   bool th = R.thorough();
   silence();
@@ -588,7 +612,7 @@ int main(int argc, char** argv) {
     {"readDiscreteDistribution.Simple", {2, 3}},
     {"readDiscreteDistribution.compound", {4, 5}},
   };
-  const uint64_t cap = th ? 2500000ULL : 150000ULL;
+  const uint64_t cap = th ? 2500000ULL : 100000ULL;
   string capsNote = "length bound per entry point (letters): ";
   uint64_t nEP = 0;
   const char* only = getenv("C16_ONLY");   // development aid: restrict to entry points whose name contains this text
@@ -625,9 +649,9 @@ int main(int argc, char** argv) {
       int opt = (int)(idx % O); uint64_t r = idx / O; size_t target = (r % 2) ? 4096 : 64; vector<int> d = seqOf(r / 2 + 1, A);
       string w; for (size_t i = 0; i < d.size(); ++i) { if (i) w += sep; w += ep.alpha[(size_t)d[i]]; }
       string in; while (in.size() < target) { if (!in.empty()) in += sep; in += w; }
-      execCase(ep, in, opt, c, 0.25);
+      execCase(ep, in, opt, c, 2.0);
       if (idx % 1009 == 5) c.sample(ep.name + " [" + ep.opts[(size_t)opt] + "] (" + show(w) + ")^k, " + vf::str(in.size()) + " bytes" + (c.failed ? " -> violation" : " -> ok"));
-    }, 30.0, 16);
+    }, 60.0, 16);
     if (!R.replay) {
       R.expectSeen(ep.name + " returned");
       if (ep.canRaise) R.expectSeen(ep.name + " raised-bpp::Exception");
@@ -635,7 +659,7 @@ int main(int argc, char** argv) {
   }
   R.note(capsNote);
   R.note(vf::str(nEP) + " entry-point groups covering ~90 public functions; each group's alphabet and option list is in the harness (buildEPs)");
-  R.note("outcome classes: '<entry point> returned' and '<entry point> raised-bpp::Exception' are the two permitted outcomes; everything else is a violation with signature kind|site|class; crash|<site>|exit97 is the CPU-time watchdog (the case did not terminate within 0.05 s / 0.25 s of CPU time)");
+  R.note("outcome classes: '<entry point> returned' and '<entry point> raised-bpp::Exception' are the two permitted outcomes; everything else is a violation with signature kind|site|class; crash|<site>|exit97 is the CPU-time watchdog (the case did not terminate within 0.05 s / 2 s of CPU time)");
   R.note("AttributesTools::removeComments is private; it is exercised through getAttributesMap (letters # / * and, in option 3, new-lines inside elements)");
   R.note("entry points that read files or the terminal (getAttributesMapFromFile, parseOptions with param=, fileExists on user paths) are not driven; getAFilePath is called with mustExist=false");
   return R.finish();
